@@ -137,6 +137,61 @@ package analysis
 //@   loop 2: invariant forall j in idx..len(piops) :: piops[j].ID == old(piops[j].ID)
 //@   loop 2: invariant forall j in 0..idx :: piops[j].ID != "" ==> piops[j].ID in dom(opIDs)
 
+// ---- one merge step keeps the operation ids of the merged document pairwise distinct (C18, aspect uniq), provided
+// the ids are unique within the primary and within the mixin, the documents share no operation object, and the
+// renamed form '<id>Mixin<N>' of an id of the mixin is neither recorded yet nor an id of the mixin (the premise of the
+// property). Trusted string fact: for a fixed N the renamed form determines the id (mixNameInj).
+//@ ofun opOfDoc(s *spec.Swagger, o *spec.Operation) bool = s.Paths != nil && (exists k in dom(s.Paths.Paths) :: isOpOf(s.Paths.Paths[k], o))
+//@ fun uniqIDs(s *spec.Swagger) bool = forall o1 *spec.Operation :: forall o2 *spec.Operation :: opOfDoc(s, o1) && opOfDoc(s, o2) && o1 != o2 && o1.ID != "" ==> o1.ID != o2.ID
+//@ fun coveredIDs(s *spec.Swagger, ids map[string]bool) bool = forall o *spec.Operation :: opOfDoc(s, o) && o.ID != "" ==> o.ID in dom(ids)
+//@ ofun idFree(s *spec.Swagger, id string) bool = forall o *spec.Operation :: opOfDoc(s, o) ==> o.ID != id
+//@ axiom mixNameInj: forall a string :: forall b string :: forall i int :: mixName(a, i) == mixName(b, i) ==> a == b
+//@ func mergePaths(primary, m, opIDs, mixIndex)
+//@   aspect uniq
+//@   requires primary != nil && m != nil && opIDs != nil && primary.Paths != nil && primary.Paths.Paths != nil
+//@   requires treeOps(m)
+//@   requires m.Paths != nil ==> primary.Paths.Paths != m.Paths.Paths
+//@   requires uniqIDs(primary) && coveredIDs(primary, opIDs) && uniqIDs(m) && (forall id in dom(opIDs) :: opIDs[id])
+//@   requires forall o *spec.Operation :: opOfDoc(m, o) ==> !opOfDoc(primary, o)
+//@   requires forall o *spec.Operation :: opOfDoc(m, o) && o.ID != "" ==> !(mixName(o.ID, mixIndex) in dom(opIDs)) && (forall o2 *spec.Operation :: opOfDoc(m, o2) ==> o2.ID != mixName(o.ID, mixIndex))
+//@   modifies map primary.Paths.Paths, map opIDs, heap spec.Operation
+//@   ensures uniqIDs(primary) && coveredIDs(primary, opIDs)
+//@   loop 1: modifies map primary.Paths.Paths, map opIDs, heap spec.Operation
+//@   loop 1: invariant forall k string :: (k in dom(primary.Paths.Paths)) <==> (old(k in dom(primary.Paths.Paths)) || k in seen)
+//@   loop 1: invariant forall k in seen :: k in dom(m.Paths.Paths)
+//@   loop 1: invariant forall k in dom(primary.Paths.Paths) :: old(k in dom(primary.Paths.Paths)) ==> primary.Paths.Paths[k] == old(primary.Paths.Paths[k])
+//@   loop 1: invariant forall k in seen :: !old(k in dom(primary.Paths.Paths)) ==> primary.Paths.Paths[k] == m.Paths.Paths[k]
+//@   loop 1: invariant forall k in dom(m.Paths.Paths) :: m.Paths.Paths[k] == old(m.Paths.Paths[k])
+//@   loop 1: invariant forall o *spec.Operation :: !fresh(o) ==> *o == old(*o) with {ID: o.ID} && idStep(old(o.ID), o.ID, mixIndex)
+//@   loop 1: invariant forall o *spec.Operation :: !fresh(o) && o.ID != old(o.ID) ==> old(o.ID) in dom(opIDs) && o.ID in dom(opIDs)
+//@   loop 1: invariant forall o *spec.Operation :: !fresh(o) && o.ID != old(o.ID) ==> (exists k in seen :: !old(k in dom(primary.Paths.Paths)) && isOpOf(m.Paths.Paths[k], o))
+//@   loop 1: invariant forall id string :: old(id in dom(opIDs)) ==> id in dom(opIDs)
+//@   loop 1: invariant forall id in dom(opIDs) :: opIDs[id] || old(id in dom(opIDs))
+//@   loop 1: invariant forall k in seen :: !old(k in dom(primary.Paths.Paths)) ==> forall o *spec.Operation :: isOpOf(m.Paths.Paths[k], o) && o.ID != "" ==> o.ID in dom(opIDs)
+//@   loop 1: invariant uniqIDs(primary) && coveredIDs(primary, opIDs)
+//@   loop 1: invariant forall o *spec.Operation :: old(opOfDoc(m, o)) && old(o.ID) != "" && !(exists k in seen :: !old(k in dom(primary.Paths.Paths)) && isOpOf(m.Paths.Paths[k], o)) ==> !(mixName(old(o.ID), mixIndex) in dom(opIDs))
+//@   loop 2: modifies map opIDs, heap spec.Operation
+//@   loop 2: invariant forall o *spec.Operation :: !fresh(o) ==> *o == old(*o) with {ID: o.ID} && idStep(old(o.ID), o.ID, mixIndex)
+//@   loop 2: invariant forall o *spec.Operation :: !fresh(o) && o.ID != old(o.ID) ==> old(o.ID) in dom(opIDs) && o.ID in dom(opIDs)
+//@   loop 2: invariant forall o *spec.Operation :: !fresh(o) && o.ID != old(o.ID) ==> (exists k in seen1 :: k != key1 && !old(k in dom(primary.Paths.Paths)) && isOpOf(m.Paths.Paths[k], o)) || (exists j in 0..idx :: piops[j] == o)
+//@   loop 2: invariant forall id string :: old(id in dom(opIDs)) ==> id in dom(opIDs)
+//@   loop 2: invariant forall id in dom(opIDs) :: opIDs[id] || old(id in dom(opIDs))
+//@   loop 2: invariant forall k in seen1 :: k != key1 && !old(k in dom(primary.Paths.Paths)) ==> forall o *spec.Operation :: isOpOf(m.Paths.Paths[k], o) && o.ID != "" ==> o.ID in dom(opIDs)
+//@   loop 2: invariant forall j in idx..len(piops) :: piops[j].ID == old(piops[j].ID)
+//@   loop 2: invariant forall j in 0..idx :: piops[j].ID != "" ==> piops[j].ID in dom(opIDs)
+//@   loop 2: invariant uniqIDs(primary) && coveredIDs(primary, opIDs)
+//@   loop 2: invariant forall o *spec.Operation :: old(opOfDoc(m, o)) && old(o.ID) != "" && !((exists k in seen1 :: k != key1 && !old(k in dom(primary.Paths.Paths)) && isOpOf(m.Paths.Paths[k], o)) || (exists j in 0..idx :: piops[j] == o)) ==> !(mixName(old(o.ID), mixIndex) in dom(opIDs))
+//@   loop 2: invariant forall j in 0..len(piops) :: isOpOf(v, piops[j])
+//@   loop 2: invariant forall j in 0..len(piops) :: forall j2 in 0..len(piops) :: j != j2 ==> piops[j] != piops[j2]
+//@   loop 2: invariant forall j in 0..idx :: piops[j].ID != "" ==> idFree(primary, piops[j].ID)
+//@   loop 2: invariant forall j in 0..idx :: piops[j].ID != "" ==> (forall j2 in 0..j :: piops[j2].ID != piops[j].ID)
+//@   loop 1: invariant forall o *spec.Operation :: old(opOfDoc(m, o)) && !(exists k in seen :: !old(k in dom(primary.Paths.Paths)) && isOpOf(m.Paths.Paths[k], o)) ==> !opOfDoc(primary, o)
+//@   loop 2: invariant forall o *spec.Operation :: old(opOfDoc(m, o)) && !(exists k in seen1 :: k != key1 && !old(k in dom(primary.Paths.Paths)) && isOpOf(m.Paths.Paths[k], o)) ==> !opOfDoc(primary, o)
+//@   loop 2: invariant forall j in 0..len(piops) :: old(opOfDoc(m, piops[j])) && !(exists k in seen1 :: k != key1 && !old(k in dom(primary.Paths.Paths)) && isOpOf(m.Paths.Paths[k], piops[j]))
+//@   loop 2: invariant forall j in idx..len(piops) :: old(piops[j].ID) != "" ==> !(mixName(old(piops[j].ID), mixIndex) in dom(opIDs))
+//@   loop 1: invariant forall id in dom(opIDs) :: opIDs[id]
+//@   loop 2: invariant forall id in dom(opIDs) :: opIDs[id]
+
 // ---- keyed sections: union, primary wins, one warning per collision (C17)
 
 //@ func mergeDefinitions(primary, m)
